@@ -36,44 +36,50 @@ type DocPeer struct {
 }
 
 type CfgDoc struct {
-	Name   string              `dials:"name"`
-	Count  int                 `dials:"count"`
-	Ratio  float64             `dials:"ratio"`
-	On     bool                `dials:"on"`
-	Wait   time.Duration       `dials:"wait"`
-	When   time.Time           `dials:"when"`
-	Tags   []string            `dials:"tags"`
-	Nums   []int               `dials:"nums"`
-	Limits map[string]int      `dials:"limits"`
-	Set    map[string]struct{} `dials:"set"`
-	In     DocIn               `dials:"in"`
-	PIn    *DocIn              `dials:"p_in"`
-	IP     net.IP              `dials:"ip"`
-	Peers  []DocPeer           `dials:"peers"`
+	Name     string                   `dials:"name"`
+	Count    int                      `dials:"count"`
+	Ratio    float64                  `dials:"ratio"`
+	On       bool                     `dials:"on"`
+	Wait     time.Duration            `dials:"wait"`
+	When     time.Time                `dials:"when"`
+	Tags     []string                 `dials:"tags"`
+	Nums     []int                    `dials:"nums"`
+	Limits   map[string]int           `dials:"limits"`
+	Set      map[string]struct{}      `dials:"set"`
+	In       DocIn                    `dials:"in"`
+	PIn      *DocIn                   `dials:"p_in"`
+	IP       net.IP                   `dials:"ip"`
+	Peers    []DocPeer                `dials:"peers"`
+	Waits    []time.Duration          `dials:"waits"`
+	Timeouts map[string]time.Duration `dials:"timeouts"`
 	// a format-specific tag takes precedence over the dials tag
 	Alt string `dials:"alt_dials" json:"alt_fmt" yaml:"alt_fmt" toml:"alt_fmt"`
 }
 
 // DocVal: which leaves a document sets, and to what.
 type DocVal struct {
-	Name      *string        `json:"name,omitempty"`
-	Count     *int           `json:"count,omitempty"`
-	Ratio     *float64       `json:"ratio,omitempty"`
-	On        *bool          `json:"on,omitempty"`
-	WaitNS    *int64         `json:"wait_ns,omitempty"`
-	WaitAsInt bool           `json:"wait_as_int,omitempty"` // JSON and Cue also accept integer nanoseconds
-	When      *string        `json:"when,omitempty"`
-	Tags      []string       `json:"tags,omitempty"`
-	Nums      []int          `json:"nums,omitempty"`
-	Limits    map[string]int `json:"limits,omitempty"`
-	Set       []string       `json:"set,omitempty"`
-	InHost    *string        `json:"in_host,omitempty"`
-	InPort    *int           `json:"in_port,omitempty"`
-	PInHost   *string        `json:"p_in_host,omitempty"`
-	PInPort   *int           `json:"p_in_port,omitempty"`
-	IP        *string        `json:"ip,omitempty"`
-	Peers     []PeerVal      `json:"peers,omitempty"`
-	Alt       *string        `json:"alt,omitempty"`
+	Name      *string          `json:"name,omitempty"`
+	Count     *int             `json:"count,omitempty"`
+	Ratio     *float64         `json:"ratio,omitempty"`
+	On        *bool            `json:"on,omitempty"`
+	WaitNS    *int64           `json:"wait_ns,omitempty"`
+	WaitAsInt bool             `json:"wait_as_int,omitempty"` // JSON and Cue also accept integer nanoseconds
+	When      *string          `json:"when,omitempty"`
+	Tags      []string         `json:"tags,omitempty"`
+	Nums      []int            `json:"nums,omitempty"`
+	Limits    map[string]int   `json:"limits,omitempty"`
+	Set       []string         `json:"set,omitempty"`
+	InHost    *string          `json:"in_host,omitempty"`
+	InPort    *int             `json:"in_port,omitempty"`
+	PInHost   *string          `json:"p_in_host,omitempty"`
+	PInPort   *int             `json:"p_in_port,omitempty"`
+	IP        *string          `json:"ip,omitempty"`
+	Peers     []PeerVal        `json:"peers,omitempty"`
+	Alt       *string          `json:"alt,omitempty"`
+	WaitsNS   []int64          `json:"waits_ns"`             // nil: key absent; empty: key present with an empty list
+	TimeoutNS map[string]int64 `json:"timeouts_ns"`          // likewise
+	EmptyTags bool             `json:"empty_tags,omitempty"` // tags: [] (present, empty)
+	EmptyNums bool             `json:"empty_nums,omitempty"`
 }
 
 type PeerVal struct {
@@ -155,6 +161,24 @@ func (g *gen) docVal(p int) DocVal {
 		v.Alt = sp(fmt.Sprintf("alt%d", n))
 	}
 	if g.pct(p) {
+		v.WaitsNS = []int64{}
+		for i, k := 0, g.in(0, 3); i < k; i++ {
+			v.WaitsNS = append(v.WaitsNS, int64(n+i)*int64(time.Second))
+		}
+	}
+	if g.pct(p) {
+		v.TimeoutNS = map[string]int64{}
+		for i, k := 0, g.in(0, 2); i < k; i++ {
+			v.TimeoutNS[fmt.Sprintf("t%d", i)] = int64(n+i) * int64(time.Millisecond) * 100
+		}
+	}
+	if v.Tags == nil && g.pct(10) {
+		v.Tags, v.EmptyTags = []string{}, true
+	}
+	if v.Nums == nil && g.pct(10) {
+		v.Nums, v.EmptyNums = []int{}, true
+	}
+	if g.pct(p) {
 		for i, k := 0, g.in(1, 3); i < k; i++ {
 			var pv PeerVal
 			if g.pct(70) {
@@ -224,10 +248,10 @@ func (v *DocVal) expected(def *DocVal) *CfgDoc {
 			c.When = t
 		}
 		if l.Tags != nil {
-			c.Tags = append([]string(nil), l.Tags...)
+			c.Tags = append([]string{}, l.Tags...)
 		}
 		if l.Nums != nil {
-			c.Nums = append([]int(nil), l.Nums...)
+			c.Nums = append([]int{}, l.Nums...)
 		}
 		if l.Limits != nil {
 			c.Limits = map[string]int{}
@@ -263,6 +287,18 @@ func (v *DocVal) expected(def *DocVal) *CfgDoc {
 		}
 		if l.Alt != nil {
 			c.Alt = *l.Alt
+		}
+		if l.WaitsNS != nil {
+			c.Waits = []time.Duration{}
+			for _, x := range l.WaitsNS {
+				c.Waits = append(c.Waits, time.Duration(x))
+			}
+		}
+		if l.TimeoutNS != nil {
+			c.Timeouts = map[string]time.Duration{}
+			for k, x := range l.TimeoutNS {
+				c.Timeouts[k] = time.Duration(x)
+			}
 		}
 		if l.Peers != nil {
 			c.Peers = nil
@@ -347,6 +383,13 @@ func (v *DocVal) fields(format string) (top []kv, limits []kv, in []kv, pin []kv
 	if v.Alt != nil {
 		top = append(top, kv{"alt_fmt", str(*v.Alt)})
 	}
+	if v.WaitsNS != nil {
+		q := make([]string, len(v.WaitsNS))
+		for i, x := range v.WaitsNS {
+			q[i] = str(time.Duration(x).String())
+		}
+		top = append(top, kv{"waits", "[" + strings.Join(q, ", ") + "]"})
+	}
 	if v.Limits != nil {
 		keys := make([]string, 0, len(v.Limits))
 		for k := range v.Limits {
@@ -390,9 +433,23 @@ func (v *DocVal) peerFields() [][]kv {
 	return out
 }
 
+func (v *DocVal) timeoutFields() []kv {
+	keys := make([]string, 0, len(v.TimeoutNS))
+	for k := range v.TimeoutNS {
+		keys = append(keys, k)
+	}
+	sort.Strings(keys)
+	var out []kv
+	for _, k := range keys {
+		out = append(out, kv{k, strconv.Quote(time.Duration(v.TimeoutNS[k]).String())})
+	}
+	return out
+}
+
 func (v *DocVal) renderDoc(format string) string {
 	top, limits, in, pin := v.fields(format)
 	peers := v.peerFields()
+	timeouts := v.timeoutFields()
 	var b strings.Builder
 	obj := func(l []kv, sep, open, close, eq string, quoteKeys bool) string {
 		parts := make([]string, len(l))
@@ -410,6 +467,9 @@ func (v *DocVal) renderDoc(format string) string {
 		all := append([]kv(nil), top...)
 		if v.Limits != nil {
 			all = append(all, kv{"limits", obj(limits, ", ", "{", "}", ": ", true)})
+		}
+		if v.TimeoutNS != nil {
+			all = append(all, kv{"timeouts", obj(timeouts, ", ", "{", "}", ": ", true)})
 		}
 		if len(in) > 0 {
 			all = append(all, kv{"in", obj(in, ", ", "{", "}", ": ", true)})
@@ -432,6 +492,9 @@ func (v *DocVal) renderDoc(format string) string {
 		if v.Limits != nil {
 			fmt.Fprintf(&b, "limits: %s\n", obj(limits, ", ", "{", "}", ": ", false))
 		}
+		if v.TimeoutNS != nil {
+			fmt.Fprintf(&b, "timeouts: %s\n", obj(timeouts, ", ", "{", "}", ": ", false))
+		}
 		if len(in) > 0 {
 			fmt.Fprintf(&b, "in: %s\n", obj(in, ", ", "{", "}", ": ", false))
 		}
@@ -452,6 +515,12 @@ func (v *DocVal) renderDoc(format string) string {
 		if v.Limits != nil {
 			b.WriteString("[limits]\n")
 			for _, e := range limits {
+				fmt.Fprintf(&b, "%s = %s\n", e.k, e.v)
+			}
+		}
+		if v.TimeoutNS != nil {
+			b.WriteString("[timeouts]\n")
+			for _, e := range timeouts {
 				fmt.Fprintf(&b, "%s = %s\n", e.k, e.v)
 			}
 		}
@@ -804,7 +873,7 @@ func (r *streamRun) checkUnset(format string, val reflect.Value, v *DocVal, doc 
 	want := map[string]bool{
 		"Name": v.Name == nil, "Count": v.Count == nil, "Ratio": v.Ratio == nil, "On": v.On == nil, "Wait": v.WaitNS == nil,
 		"When": v.When == nil, "Tags": v.Tags == nil, "Nums": v.Nums == nil, "Limits": v.Limits == nil, "Set": v.Set == nil,
-		"In": v.InHost == nil && v.InPort == nil, "PIn": v.PInHost == nil && v.PInPort == nil, "IP": v.IP == nil, "Peers": v.Peers == nil, "Alt": v.Alt == nil,
+		"In": v.InHost == nil && v.InPort == nil, "PIn": v.PInHost == nil && v.PInPort == nil, "IP": v.IP == nil, "Peers": v.Peers == nil, "Alt": v.Alt == nil, "Waits": v.WaitsNS == nil, "Timeouts": v.TimeoutNS == nil,
 	}
 	names := make([]string, 0, len(want))
 	for n := range want {
